@@ -1969,6 +1969,18 @@ func TestVerifC13(t *testing.T) {
 			vfc13DbProbe(t, s)
 			s.Count("replayed_dbprobe")
 			return
+		case f[0] == "partialfilter":
+			var sub uint64
+			if len(f) == 2 {
+				fmt.Sscanf(f[1], "%d", &sub)
+			}
+			if sub > 2 {
+				vfc13PfCase(t, s, vfc13PfGen(vfutil.NewRand(sub)), fmt.Sprintf("partialfilter %d", sub))
+			} else {
+				vfc13PartialFilterProbe(t, s, 0)
+			}
+			s.Count("replayed_partialfilter")
+			return
 		case f[0] == "clusterloop":
 			vfc13ClusterProbe(t, s)
 			s.Count("replayed_clusterloop")
@@ -2211,6 +2223,9 @@ func TestVerifC13(t *testing.T) {
 	// ---- replaceHashTag x namespace filter of the snapshot phase (vf_c13_hashtag_test.go)
 	vfc13HashTagProbe(t, s)
 	vfc13HashTagPlainProbe(t, s)
+
+	// ---- links with a partial key filter: projected DEL / UNLINK / MSET held between parser and sender (vf_c13_partial_test.go)
+	vfc13PartialFilterProbe(t, s, 0)
 
 	// ---- the closed loop with a CLUSTER pair (vf_c13_cluster_test.go)
 	vfc13ClusterProbe(t, s)
